@@ -128,6 +128,75 @@ Proof.
 Qed.
 End Action.
 
+(* ---- the code's dictionary of step-keyed controls refines the history model ------------------ *)
+Section Dict.
+Hypothesis mul_one_r : forall x, mul x one = x.
+
+Lemma assoc_get_add_same z c l :
+  assoc_get A z (assoc_add A mul z c l) = Some (match assoc_get A z l with Some v => mul c v | None => c end).
+Proof.
+  induction l as [|[k v] t IH]; cbn [assoc_add assoc_get]; [rewrite Z.eqb_refl; reflexivity|].
+  destruct (Z.eqb k z) eqn:E; cbn [assoc_get]; rewrite E; [reflexivity|exact IH].
+Qed.
+
+Lemma assoc_get_add_other z z' c l : z' <> z -> assoc_get A z' (assoc_add A mul z c l) = assoc_get A z' l.
+Proof.
+  intros H. induction l as [|[k v] t IH]; cbn [assoc_add assoc_get].
+  - destruct (Z.eqb_spec z z'); [congruence|reflexivity].
+  - destruct (Z.eqb k z) eqn:E; cbn [assoc_get].
+    + apply Z.eqb_eq in E. subst k. destruct (Z.eqb_spec z z'); [congruence|reflexivity].
+    + destruct (Z.eqb k z'); [reflexivity|exact IH].
+Qed.
+
+Lemma step_store_snoc hist a post :
+  step_store A mul (hist ++ [a]) post =
+  match a_key A a with
+  | KInt z => if side A post a then assoc_add A mul z (a_op A a) (step_store A mul hist post) else step_store A mul hist post
+  | KFloat _ => step_store A mul hist post
+  end.
+Proof. unfold step_store. rewrite fold_left_app. reflexivity. Qed.
+
+(* the product stored for a step key (before get_controls multiplies it onto the identity) *)
+Definition stored (l : list add) : option A :=
+  match map (a_op A) l with
+  | [] => None
+  | c :: t => Some (fold_left (fun acc x => mul x acc) t c)
+  end.
+
+Lemma stored_snoc l a :
+  stored (l ++ [a]) = Some (match stored l with Some v => mul (a_op A a) v | None => a_op A a end).
+Proof.
+  unfold stored. rewrite map_app. cbn [map]. destruct (map (a_op A) l) as [|c t]; cbn [app]; [reflexivity|].
+  rewrite fold_left_app. reflexivity.
+Qed.
+
+Lemma store_is_stored hist post step :
+  assoc_get A step (step_store A mul hist post) = stored (step_seq A hist post step).
+Proof.
+  induction hist as [|a hist IH] using rev_ind; [reflexivity|].
+  rewrite step_store_snoc, step_seq_snoc.
+  destruct (a_key A a) as [z|f] eqn:Ek.
+  - unfold on_step, int_step. rewrite Ek. destruct (side A post a) eqn:Es; cbn [andb].
+    + destruct (Z.eqb_spec z step) as [->|Hne].
+      * rewrite assoc_get_add_same, stored_snoc, IH. reflexivity.
+      * rewrite assoc_get_add_other by congruence. rewrite app_nil_r. exact IH.
+    + rewrite app_nil_r. exact IH.
+  - unfold on_step, int_step. rewrite Ek. rewrite andb_false_r, app_nil_r. exact IH.
+Qed.
+
+Lemma stored_eval l : option_map (fun v => mul v one) (stored l) = eval_opt A mul one (map (a_op A) l).
+Proof.
+  unfold stored, eval_opt, eval_seq. destruct (map (a_op A) l) as [|c t]; [reflexivity|].
+  cbn [option_map fold_left]. f_equal. rewrite (mul_one_r c), mul_one_r. reflexivity.
+Qed.
+
+(* For EVERY history of add_single calls: what the code's dictionary yields for a step is the
+   product of exactly the controls added for that (step, side), in insertion order *)
+Theorem dict_refines_history hist post step :
+  dict_step_control A mul one hist post step = eval_opt A mul one (map (a_op A) (step_seq A hist post step)).
+Proof. unfold dict_step_control. rewrite store_is_stored. apply stored_eval. Qed.
+End Dict.
+
 (* ---- chain controls ----------------------------------------------------- *)
 Lemma chain_seq_snoc (hist : list (cadd A)) c post step site :
   chain_seq A (hist ++ [c]) post step site =
